@@ -4,7 +4,7 @@ pickle inside pysyncobj.serializer are replaced by identity-capturing codecs so 
 user state stay symbolic."""
 import z3
 
-from pvf.core import And, Or, Not, Implies, Iff, Eq, Ite, SymInt
+from pvf.core import And, Or, Not, Implies, Iff, Eq, Ite, SymInt, Max
 from pvf.registry import obligation, Res
 from pvf import so, core, disk
 from pvf.blob import Blob, S, symlen
@@ -253,7 +253,7 @@ def S4(inp, chunks, event, lose=False, observer=False):
         # emulate the effect of a successful load (the decode of an abstract image is outside this obligation)
         so.set_log(fol, [(so.NOOP, 4, 1), (so.NOOP, 5, 1)])
         put(fol, 'raftLastApplied', 5)
-        return True
+        return None
     setattr(fol, so.P + 'loadDumpFile', spy_load)
     k = inp.choice('after', chunks + 1) + 1 if event != 'none' else None
 
@@ -466,7 +466,7 @@ def RI(inp, n):
     rec_cov, rec_above = Rec('covered'), Rec('above')
     wc = get(o, 'commandsWaitingCommit')
     cov_idx = d - inp.choice('cb_below', 2)
-    inp.assume(And(cov_idx > p.applied, d > p.commit) if inp.flag('with_callback') else True)
+    inp.assume(And(cov_idx > p.applied, Not(Or(d <= p.commit, so.has_entry(p.log, d, dt1)))) if inp.flag('with_callback') else True)
     wc[cov_idx].append((inp.int('cb_term', 0, 5), rec_cov))
     wc[d + 1].append((mterm, rec_above))
     msg = {'type': 'append_entries', 'term': mterm, 'commit_index': mci, 'serialized': (Blob(), False, True)}
@@ -477,17 +477,23 @@ def RI(inp, n):
     # a position covered by a snapshot was committed and applied: its outcome is unknown to this node, never "not applied"
     cl['no_failure_reported_for_positions_the_snapshot_covers'] = all(err == 0 for _, err in rec_cov.calls) and len(rec_cov.calls) <= 1
     cl['callbacks_above_the_snapshot_untouched'] = rec_above.calls == []
-    stale = d <= p.commit          # everything the snapshot covers is committed here already (the leader acted on an outdated reply)
+    # the snapshot's last entry is in the local log already (within the committed prefix, or same index and term): it carries
+    # nothing new, the leader acted on an outdated reply
+    stale = Or(d <= p.commit, so.has_entry(p.log, d, dt1))
     if started:
         fresh = Not(stale)
-        unchanged = And(so.logs_equal(p.log, q.log) if len(p.log) == len(q.log) else False, Eq(q.applied, p.applied), Eq(q.commit, p.commit), Eq(o.x, -1))
-        cl['fresh_log_is_the_two_snapshot_entries'] = Implies(fresh, len(q.log) == 2 and And(Eq(q.log[0][1], d - 1), Eq(q.log[1][1], d), Eq(q.log[0][2], dt0), Eq(q.log[1][2], dt1)))
-        cl['fresh_applied_index_is_snapshot_position'] = Implies(fresh, Eq(q.applied, d))
-        cl['fresh_user_state_is_the_snapshot'] = Implies(fresh, Eq(o.x, xs))
+        installed = And(len(q.log) == 2 and And(Eq(q.log[0][1], d - 1), Eq(q.log[1][1], d), Eq(q.log[0][2], dt0), Eq(q.log[1][2], dt1)), Eq(q.applied, d), Eq(o.x, xs))
+        kept = And(so.logs_equal(p.log, q.log) if len(p.log) == len(q.log) else False, Eq(q.applied, p.applied), Eq(q.commit, p.commit), Eq(o.x, -1))
+        cl['fresh_snapshot_installed'] = Implies(fresh, installed)
         cl['fresh_acknowledged_with_next_index'] = Implies(fresh, len(acks) == 1 and Eq(acks[0]['next_node_idx'], d + 1))
-        # a stale snapshot changes nothing: the committed prefix is kept (C04), the state still is the execution of the applied prefix (C01)
-        cl['stale_snapshot_changes_nothing'] = Implies(stale, unchanged)
-        cl['stale_snapshot_acknowledged_at_commit'] = Implies(stale, len(acks) == 1 and Eq(acks[0]['next_node_idx'], p.commit + 1))
+        # C01: the state is the snapshot's iff the applied index is the snapshot's
+        cl['state_and_applied_index_agree'] = Or(installed, kept)
+        # C04: entries this node holds above a snapshot that ends inside its log may be committed on the strength of its own
+        # acknowledgement: they stay; the committed prefix stays
+        cl['stale_snapshot_keeps_the_log'] = Implies(stale, kept)
+        # the acknowledgement names an index up to which the log is known to equal the leader's (matchIndex soundness), and lies
+        # above the snapshot (otherwise the leader sends the same snapshot for ever)
+        cl['stale_snapshot_acknowledged_at_match'] = Implies(stale, len(acks) == 1 and And(acks[0]['next_node_idx'] - 1 <= Max(p.commit, d), acks[0]['next_node_idx'] >= d + 1))
         cl['stale_snapshot_renews_stored_snapshot'] = Implies(stale, get(o, 'forceLogCompaction') is True)
         cl['indices_do_not_move_backwards'] = And(q.applied >= p.applied, q.commit >= p.commit)
         cl['commit_within_log'] = And(q.commit <= q.log[-1][1], q.commit >= q.applied)
